@@ -1,8 +1,12 @@
 (* C02 -- Fill computes the specified function of the weighted multiset of data.
-   Exact instance.  (The specification itself -- Proofs/Denote.v -- is stated below once proved;
-   this file lists what is proved about it.) *)
+   Order independence and the weight gate at the exact instance; the node-level specification
+   (total weight; every fixed child holds the aggregate of exactly the sub-stream routed to it) for
+   every arithmetic instance; the closed forms of Count, Sum, Average and Deviate on finite data with
+   positive weights (sum of weights, weighted sum, weighted mean, weighted sum of squared deviations)
+   at the exact instance.  Extrema, the value map of Bag and the sparse children are evaluated by the
+   independent exact-rational reference semantics harness/refsem.py on every exact program, not proved. *)
 From Coq Require Import List Permutation Bool QArith Qcanon.
-From Hgm Require Import NumOps Xq Agg Ops XqFacts LeafAlg Algebra Stream.
+From Hgm Require Import NumOps Xq Agg Ops XqFacts LeafAlg Algebra Stream Denote LeafDenote.
 Import ListNotations.
 
 (* the result does not depend on the order in which data are filled *)
@@ -33,6 +37,50 @@ Theorem C02_gate_meaning : forall w : xq,
   @pos Xq w = false <-> (w = XNaN \/ w = XNInf \/ exists q, w = XF q /\ (q <= 0)%Qc).
 Proof. exact pos_false_iff. Qed.
 
+(* after any stream none of whose fills raises: the entries are the initial entries plus the
+   weights > 0, and fixed child i is its initial state filled with the sub-stream of the rows the
+   node routes to position i, each with the weight the node gives it (Bin: the rows of that
+   interval / flow; CentrallyBin: nearest centre; IrregularlyBin: that interval; Stack: at or above
+   that threshold; Fraction: all rows / the selected rows; Select: weight * selection; collections:
+   every row) *)
+Theorem C02_children : forall (N : num_ops) k q (s : list (datum N * T N)) e fx sp tm ct,
+  all_done (Node k q e fx sp tm ct) s ->
+  exists e' fx' sp',
+    fills (Node k q e fx sp tm ct) s = Node k q e' fx' sp' tm ct /\
+    List.length fx' = List.length fx /\
+    e' = fold_left (fun acc w => nadd acc w) (counted s) e /\
+    forall i c, nth_error fx i = Some c ->
+      nth_error fx' i = Some (fills c (sub_stream k q (List.length fx) i s)).
+Proof. intros N k q s. apply fills_children. Qed.
+
+(* leaves, finite data (q, w) with w > 0, filled into the empty leaf: sw = sum of w,
+   swq = sum of w*q, swqq = sum of w*q*q *)
+Theorem C02_count : forall (rs : rows) s, le (lfills (LCount TId) s rs) = xadd (le s) (XF (sw rs)).
+Proof. exact count_denote. Qed.
+
+Theorem C02_sum : forall (rs : rows) e0 s0,
+  let s := lfills LSum (mkst (XF e0) (XF s0) (XF 0)) rs in
+  le s = XF (e0 + sw rs)%Qc /\ l1 s = XF (s0 + swq rs)%Qc.
+Proof. exact sum_denote. Qed.
+
+(* entries * mean = sum of weight * quantity *)
+Theorem C02_average : forall rs : rows, pos_rows rs -> rs <> [] ->
+  exists m, lfills LAverage (leaf_zero LAverage) rs = mkst (XF (sw rs)) (XF m) (XF 0) /\
+            (sw rs * m = swq rs)%Qc.
+Proof. exact average_denote. Qed.
+
+(* ... and varianceTimesEntries = sum of weight * quantity^2 - entries * mean^2
+   (= sum of weight * (quantity - mean)^2) *)
+Theorem C02_deviate : forall rs : rows, pos_rows rs -> rs <> [] ->
+  exists m v, lfills LDeviate (leaf_zero LDeviate) rs = mkst3 (XF (sw rs)) (XF m) (XF v) /\
+              (sw rs * m = swq rs)%Qc /\ (v + sw rs * m * m = swqq rs)%Qc.
+Proof. exact deviate_denote. Qed.
+
 Print Assumptions C02_order_independent.
+Print Assumptions C02_children.
+Print Assumptions C02_count.
+Print Assumptions C02_sum.
+Print Assumptions C02_average.
+Print Assumptions C02_deviate.
 Print Assumptions C02_gate.
 Print Assumptions C02_gate_meaning.
